@@ -4,7 +4,7 @@ import PsModel.Spec.C15
 /-! line-protocol front end of the C15 model
 
 `C15 (<L|N|Lp|Np> (cfg <state> <time> <event> <mqtt> <timeout>) (tb st ev evl mq mql tasks) v call (hist (t item) ...))`
-* state = `none | (st <fn> checkNow parseOK)`     event = `none | (ev <fn>|nofilt parseOK)`     mqtt = `none | (mq parseOK)`
+* state = `none | (st <fn> checkNow parseOK [hold|none holdFalse|none])`     event = `none | (ev <fn>|nofilt parseOK)`     mqtt = `none | (mq parseOK)`
 * fn    = `(gt n) | (ge n) | (eq n) | (ne n) | (const b) | (raiseat n <fn>)`  (raises when the argument is `n`)
 * time  = `none | (abs t) | (rel d)`        timeout = `none | n`        item = `(s v) | (e d) | (c)`
 `L`/`N` run the machines with `Flags.current`, `Lp`/`Np` with `Flags.preFix`.  The tables are given / printed as counts; the call's own queue is number 7, pre-existing ones 100, 101, ….
@@ -33,11 +33,20 @@ partial def fn? : Sexp → Option Fn
   | .list [.atom "raiseat", n, f] => do pure (.raiseat (← n.nat?) (← fn? f))
   | _ => Option.none
 
+def optNat? : Sexp → Option (Option Nat)
+  | .atom "none" => some Option.none
+  | x => x.nat? >>= fun k => some (some k)
+
 def state? : Sexp → Option (Option StateTrig)
   | .atom "none" => some Option.none
   | .list [.atom "st", f, c, p] => do
     let g ← fn? f
     pure (some { expr := g.eval, checkNow := (← c.bool?), parseOK := (← p.bool?) })
+  | .list [.atom "st", f, c, p, h, hf] => do
+    let g ← fn? f
+    let hold ← optNat? h
+    let holdFalse ← optNat? hf
+    pure (some { expr := g.eval, checkNow := (← c.bool?), parseOK := (← p.bool?), hold := hold, holdFalse := holdFalse })
   | _ => Option.none
 
 def event? : Sexp → Option (Option EvTrig)
@@ -104,8 +113,9 @@ def handle (x : Sexp) : String :=
       let cfg : Cfg := { state := s, time := t, event := e, mqtt := m, timeout := o }
       let fl := if mode == "Lp" || mode == "Np" then Flags.preFix else Flags.current
       let r := if mode == "L" || mode == "Lp" then Legacy.runAt fl cfg 7 tbl v0 c hist else New.runAt fl cfg 7 tbl v0 c hist
-      let sp := Spec.first cfg (valueAt v0 c hist) c (after c hist)
-      s!"ok {showExit r.1} {showTables r.2} ## {showExit sp}"
+      -- the first-of specification speaks about calls without holds; hold calls are judged by the Python oracle
+      let sp := if (Legacy.holdTrig cfg).isSome then "-" else showExit (Spec.first cfg (valueAt v0 c hist) c (after c hist))
+      s!"ok {showExit r.1} {showTables r.2} ## {sp}"
     | _, _, _, _, _, _, _, _, _ => "err parse"
   | _ => "err bad-command"
 
